@@ -100,27 +100,24 @@ from vgi_rpc.utils import IpcValidation, ValidatedReader, new_ipc_stream
 # ---------------------------------------------------------------------------
 
 
-_ACCESS_LOG_ERROR_MESSAGE_LIMIT = 500
-"""Cap for ``error_message`` fields surfaced via the access log.
-
-Long exception messages (typically with embedded tracebacks or repeated
-context) bloat each JSONL record without adding signal — the full traceback
-is logged separately by ``_log_method_error``.  The cap matches the
-historical inline truncation used at every dispatch site.
-"""
-
-
-def _truncate_error_message(exc: BaseException | None, limit: int = _ACCESS_LOG_ERROR_MESSAGE_LIMIT) -> str:
+def _truncate_error_message(exc: BaseException | None) -> str:
     """Render an exception's message for the access-log ``error_message`` field.
 
-    Returns ``""`` for ``None`` (the no-error case).  Otherwise returns
-    ``str(exc)`` truncated to ``limit`` characters.  Centralises the
-    historically duplicated ``str(exc)[:500]`` pattern across the unary
-    and stream dispatch shells so the truncation policy is one knob.
+    Returns ``""`` for ``None`` (the no-error case), otherwise ``str(exc)``
+    in full.  ``docs/access-log-spec.md`` (§4.1, §5b) gives the field no
+    length cap and says it MUST NOT be truncated, and the pipe transports
+    have always logged the whole message; the HTTP dispatch shells used to
+    cut it at 500 characters here, so one failure was logged differently
+    depending on the transport that carried it.  Record size is bounded where
+    the spec puts the bound — the formatter's ``max_record_bytes`` shedding,
+    which keeps ``error_message`` to the last — not by losing the message.
+
+    The name is historical: it is kept so the dispatch shells that import it
+    do not all have to change.
     """
     if exc is None:
         return ""
-    return str(exc)[:limit]
+    return str(exc)
 
 
 def _log_method_error(protocol_name: str, method_name: str, server_id: str, exc: BaseException) -> str:
